@@ -364,6 +364,7 @@ func DelStaleCheckpoint(cli client.Redis, checkpointName string, runId string, b
 
 	before := time.Now().Add(-1 * beforeNow).UnixNano()
 	newest := int64(-2)
+	newestMtime := int64(0)
 	var newestDb int32
 	cpis := []*CheckpointInfo{}
 	dbs := []int32{}
@@ -372,8 +373,10 @@ func DelStaleCheckpoint(cli client.Redis, checkpointName string, runId string, b
 		if err != nil {
 			return 0, 0, err
 		}
-		if cpi.Offset > newest {
+		// same order as GetCheckpoint: the entry the next start resumes from is the newest
+		if cpi.Offset > newest || (cpi.Offset == newest && cpi.Mtime > newestMtime) {
 			newest = cpi.Offset
+			newestMtime = cpi.Mtime
 			newestDb = db
 		}
 		if cpi.Offset > 0 {
